@@ -34,7 +34,7 @@ TIERS = {
     'C04': {'quick': {'runs': 6000, 'budget': 120}, 'thorough': {'runs': 150000, 'budget': 1500}},
     'C07': {'quick': {'runs': 8000, 'budget': 120}, 'thorough': {'runs': 200000, 'budget': 1500}},
     'C11': {'quick': {'runs': 12000, 'budget': 120}, 'thorough': {'runs': 300000, 'budget': 1500}},
-    'C20': {'quick': {'runs': 12000, 'budget': 120}, 'thorough': {'runs': 300000, 'budget': 1500}},
+    'C20': {'quick': {'runs': 40000, 'budget': 150}, 'thorough': {'runs': 800000, 'budget': 1500}},
 }
 
 
@@ -74,7 +74,7 @@ def cmd_check(args):
     seen_classes = set()
     for v in total['violations']:
         vc = tuple([v['violation'][k] for k in ('property', 'invariant', 'op', 'detail')])
-        if vc in seen_classes:
+        if vc in seen_classes or len(seen_classes) >= int(os.environ.get('VERIF_MAX_CLASSES', 4)):
             continue
         seen_classes.add(vc)
         path = report_violation(mod, pid, v)
